@@ -99,7 +99,7 @@ REG.update({
         "tests": [{"pkg": "./chainsim", "run": "TestC09", "quick": 400, "thorough": 30000, "chunk": 25}],
         "rule": S5_RULE + ("Byzantine op: the node's honest zone-order candidate block is copied through the wire codec, ONE parent-derived header field is changed (number, difficulty +-1, gas/state limit, base fee, prime terminus hash/number, "
                  "expansion number, parent entropy / delta / uncled delta, uncled entropy, time before parent, time far in the future, parent hash = grandparent), the block is RE-SEALED with real blake3 work and handed to the node; oracle: never appended-and-executed-as-head, and chain state unchanged. "
-                 "Plus on every honestly accepted edge: accumulated entropy strictly increases, recorded parent entropy equals the parent's accumulated entropy, order recomputed later equals the order at mining time."),
+                 "Plus on every honestly accepted edge: accumulated entropy strictly increases, recorded parent entropy equals the parent's accumulated entropy, order recomputed later equals the order at mining time." + " Added after seeding wave 4: timestamps 2^63, 2^63+now, 2^64-1-k; for every dominant-order block the view its region / prime chain accepted is copied with its number in that context changed (+1, -1, 0, +1000), re-sealed to the same order and given to that chain's HeaderChain.VerifyHeader, which must refuse it while the unchanged copy passes."),
         "expect_probes": ["byz.difficulty+1", "byz.number+1", "byz.time-far-future", "byz.parent-entropy+1", "byz.prime-terminus-hash", "byz.base-fee+1", "reorg"],
         "components": S5_COMPONENTS,
         "assumptions": ["share-difficulty (SHA/Scrypt/KawPow) fields are not exercised: the KawPow fork regime is off in this harness", "efficiency score / threshold count / eligible-slices rewrites are observed, not judged: no property names them as derived for zone blocks",
@@ -144,8 +144,8 @@ REG.update({
         "rule":  "Network half (TestC04Net): a second honest node B follows A over a simulated faulty network driven by a second tape: each view (zone / region / prime) of every block A mines, on any branch, is a message that arrives in order, out of order (children before parents, dominant views before zone views), twice, is dropped, or is lost while B is partitioned; B's append-queue retry is a scheduled step; B's coordinator follows A's head as far as B has the blocks. When A's tape ends the faults stop, what B lacks is re-sent newest-first, and within 4 re-send rounds B must hold A's canonical line and be able to take A's head (follower-converges), and the ETX history oracle below is evaluated on B's database; no delivery may make B panic (follower-panic)." + S5_RULE + ("Oracle over the recorded history (evaluated on the canonical line after reorgs, every 6th head change and at the end): a FIFO model of the destination queue fed by what the dominant chain delivered with each coincident block "
                  "(rawdb inbound-ETX records) - every executed inbound ETX must be the next queue item; every delivered ETX corresponds to exactly one ETX emitted earlier on the same canonical chain (key = originating tx hash + index), is delivered once, "
                  "and is identical to the emitted one except for the value of conversions; every ETX followed by >=3 prime blocks and 3 more zone blocks has been executed. ETX kinds exercised: coinbase (Quai and Qi), Quai->Qi conversion. "
-                 "Fault 'forged pending ETXs': for half of the mined blocks a peer that saw the sealed block first pushes a batch of pending ETXs for it (emptied, truncated, one value altered, one duplicated) at the region and prime chains before the node processes the block; every such batch must be refused and must not shadow the genuine one."),
-        "expect_probes": ["reorg", "forged_pending_etxs_emptied", "forged_pending_etxs_altered", "net.deliver-reordered", "net.deliver-duplicate", "net.dropped", "net.partition", "net.followers_caught_up"],
+                 "Fault 'forged pending ETXs': for half of the mined blocks a peer that saw the sealed block first pushes a batch of pending ETXs for it (emptied, truncated, one value altered, one duplicated) at the region and prime chains before the node processes the block; every such batch must be refused and must not shadow the genuine one." + " ETX queue model: every 5th head a private copy of the state under the head is pushed batches sized so that one straddles the growth of the queue index from one byte to two (255 -> 256) plus a single push, then everything is popped against a FIFO model: nothing lost, nothing out of order, nothing from nothing."),
+        "expect_probes": ["reorg", "forged_pending_etxs_emptied", "forged_pending_etxs_altered", "net.deliver-reordered", "net.deliver-duplicate", "net.dropped", "net.partition", "net.followers_caught_up", "etx_queue_index_growth_straddled"],
         "components": S5_COMPONENTS,
         "assumptions": ["single slice (expansion 0): all ETXs are zone 0-0 -> prime -> zone 0-0; cross-zone delivery, region-level coincidence and delivery to 'another zone' are NOT exercised",
                         "byzantine destination blocks with permuted/duplicated/unknown inbound ETXs are covered only through the C07 body-mutation rows (drop/swap/duplicate a transaction)",
@@ -216,7 +216,7 @@ REG.update({
                  "(three times out of four aimed at a stored lockup, sometimes through a contract that does not own it, sometimes for the epoch still accumulating or before the tranche unlocks). Most runs start from prologue 3 (contract deployed, contract-held lockups of two epochs). "
                  "Oracles after every accepted block: (credit-ledger) a model of contract-held lockups keyed (contract, miner, lockup byte, epoch), fed only by the coinbase ETXs executed in accepted blocks, equals the stored cl records exactly; "
                  "Qi rewards are minted under the reward ETX's hash, locked until exactly block+depth, for no more than the lockup-adjusted value; the plain-reward account's balance changes at a block by exactly the rewards whose unlock height it is (less the account-creation fee the first time); "
-                 "(claim-once) a claim pays only an existing lockup, of a closed epoch, at or after its tranche unlock height, exactly its accumulated balance, to the stated recipient from the owning contract, and removes it; (share-once) no uncle/workshare is included twice on a chain or is itself canonical."),
+                 "(claim-once) a claim pays only an existing lockup, of a closed epoch, at or after its tranche unlock height, exactly its accumulated balance, to the stated recipient from the owning contract, and removes it; (share-once) no uncle/workshare is included twice on a chain or is itself canonical." + ' The lockup-owner contract reverts when the precompile refuses (premature, repeated, foreign claims become failed transactions next to successful ones in one block).'),
         "expect_probes": ["contract_lockup_reward", "lockup_accumulated", "claim_paid", "claim_refused", "quai_reward_unlocked", "qi_reward_checked", "uncle_included", "reorg"],
         "components": S5_COMPONENTS,
         "assumptions": ["the reward amount of a coinbase ETX is taken from the honest block (worker/validator agreement is C07); only the lockup adjustment uses params.CalculateCoinbaseValueWithLockup",
@@ -229,7 +229,7 @@ REG.update({
                  "One run in six sits on the historic side of the conversion-discount fork (ConversionSlipChangeBlock). Oracles per conversion id (originating tx hash, index), on the canonical chain after every accepted block: "
                  "delivered either repriced (Conversion) or as a refund (ConversionRevert) of exactly the original amount; when the child prime block becomes head, the repriced amount is <= the amount implied by the rate recorded there and >= the 10 % floor; "
                  "Quai->Qi credits are minted under the ETX hash, locked until exactly execution height + ConversionLockPeriod, for no more than the delivered value; the Qi->Quai recipient's balance changes at a block by exactly the conversions executed ConversionLockPeriod blocks earlier; "
-                 "the dedicated converter is debited exactly value + gas for every conversion it got included and credited exactly the original value on refund; Qi->Quai refunds are re-minted, locked, for no more than the original."),
+                 "the dedicated converter is debited exactly value + gas for every conversion it got included and credited exactly the original value on refund; Qi->Quai refunds are re-minted, locked, for no more than the original." + " Rate function: on both sides of every conversion-related fork height (F-2, F-1 | F, F+1) the conversion of a fixed amount at fixed difficulty / rate / share counts is equal, round trips at a fixed rate never gain, and for amounts just below a whole unit of the target ledger (m = 1, 7, 1000, 10^6; mainnet-scale and low its-per-qit ratios) the result never exceeds amount x target reward / origin reward rounded down; the amount 'implied by the rate' in the chain oracle is computed from the two block-reward functions, not from the conversion functions."),
         "expect_probes": ["conversion_amount_bounded", "quai_to_qi_credited", "qi_to_quai_credited", "quai_to_qi_refunded", "qi_to_quai_refunded", "converter_debited", "reorg"],
         "components": S5_COMPONENTS,
         "assumptions": ["the exchange-rate controller itself does not move in these runs (fewer than TokenChoiceSetSize prime blocks): rising/falling trajectories are not exercised", "round trips at a fixed rate and the dust rule are bounded only through the per-leg upper bounds",
@@ -256,7 +256,7 @@ REG.update({
         "rule": S5_RULE + ("Monitor on every transaction the simulated clients sign (transfers, conversions with data, contract creations and calls with access lists; Qi transactions with 1..3 inputs): "
                  "for every second Quai transaction each signed field in turn (nonce, gas, gas price, value, recipient, recipient present/absent, data appended/flipped, access-list address/key added, chain id) is changed with the signature kept, and each signature value is pushed to an edge "
                  "(r=0, s=0, r=N, s=N, r=N+1, high-S with flipped v, v=2, v flipped, r+1): types.Sender must fail or return another address, and the node's live tx pool must not book the rewrite to the original sender; a sender cached under the chain's signer is not served to a signer of another chain id and survives that query. "
-                 "For every valid Qi transaction, a changed output denomination/address, a dropped output, changed data or chain id with the Schnorr (MuSig2) signature kept must fail the node's own ValidateQiTxInputs + ValidateQiTxOutputsAndSignature on the live UTXO set."),
+                 "For every valid Qi transaction, a changed output denomination/address, a dropped output, changed data or chain id with the Schnorr (MuSig2) signature kept must fail the node's own ValidateQiTxInputs + ValidateQiTxOutputsAndSignature on the live UTXO set." + " Added after seeding wave 4: recovery ids v+256, v+512, v+2^32, v+2^64, v+27 (equal to the genuine one modulo a byte / a word); the same content signed by the same key for chain ids 0, 1, 9, 1337 and the neighbour id must not be attributed to the key holder by this chain's signer nor booked by the pool (cross-chain-replay); every third head the validator's own Qi path (core.ProcessQiTx) is driven with the adversarial cases of C01, including a second input that is not owned by the presented key."),
         "expect_probes": ["rewrite.nonce", "rewrite.chain-id", "rewrite.high-s", "rewrite.access-list-key", "rewrite.qi-output-denomination", "rewrite.qi-data", "reorg"],
         "components": S5_COMPONENTS,
         "assumptions": ["the per-field quantifier is enumerated over the field list of the current transaction types, not proved; elliptic-curve recovery maths is trusted",
